@@ -143,3 +143,45 @@ func init() {
 		Stubs:  append(append([]string{}, stubCrypto...), stubErrors...),
 	})
 }
+
+func init() {
+	register(&PropSpec{
+		ID:   "C08",
+		Pkgs: []string{"root"},
+		Items: func(tier string, seed int64) []Item {
+			var it []Item
+			for _, l := range pick(tier, rng(0, 40), append(rng(0, 64), 100, 128, 200, 255, 256)) {
+				it = append(it, Item{PkgKey: "root", Func: "VerifC08_Canonical", Shape: []int{l}})
+			}
+			return it
+		},
+		Bounds: func(tier string) map[string]string { return map[string]string{} },
+		Stubs:  stubErrors,
+	})
+	register(&PropSpec{
+		ID:   "C01",
+		Pkgs: []string{"root"},
+		Items: func(tier string, seed int64) []Item {
+			var it []Item
+			for mt := 0; mt < 4; mt++ {
+				for _, s := range dataShapes(tier, 300) {
+					it = append(it, Item{PkgKey: "root", Func: "VerifC01_Data", Shape: append([]int{mt}, s...)})
+				}
+			}
+			for _, s := range [][]int{{0, 0, 0, 0}, {0, 1, 2, 1}, {1, 2, 2, 2}, {2, 15, 2, 3}, {3, 0, 1, 4}} {
+				it = append(it, Item{PkgKey: "root", Func: "VerifC01_Text", Shape: s})
+			}
+			it = append(it, Item{PkgKey: "root", Func: "VerifC01_JoinRequest", Shape: []int{}})
+			it = append(it, Item{PkgKey: "root", Func: "VerifC01_Rejoin", Shape: []int{0}}, Item{PkgKey: "root", Func: "VerifC01_Rejoin", Shape: []int{1}})
+			for cf := 0; cf <= 8; cf++ {
+				it = append(it, Item{PkgKey: "root", Func: "VerifC01_JoinAccept", Shape: []int{cf}})
+			}
+			for _, n := range pick(tier, []int{0, 1, 2, 17, 64}, append(rng(0, 32), 64, 128, 250)) {
+				it = append(it, Item{PkgKey: "root", Func: "VerifC01_Proprietary", Shape: []int{n}})
+			}
+			return it
+		},
+		Bounds: func(tier string) map[string]string { return map[string]string{} },
+		Stubs:  append(append([]string{}, stubCrypto...), stubErrors...),
+	})
+}
